@@ -742,7 +742,7 @@ func TestVerifC17Compile(t *testing.T) {
 	if shard == 0 { // long / deep inputs
 		big := 2000
 		if VThorough() {
-			big = 8000
+			big = 5000
 		}
 		for _, kind := range []string{"params", "andchain", "litlist", "items", "rules", "annotation", "quote", "quote-unclosed", "comment-unclosed", "word", "bangs", "closers", "bytes"} {
 			ops = append(ops, fmt.Sprintf("k %s %d", kind, big))
